@@ -2,7 +2,7 @@
    util.Scatter (util/scatter.go calculateExtentSize), about which scatter_partition and the
    delivery theorems are proved, equals the transcription gotrans regenerates on every run. *)
 From Coq Require Import ZArith.
-From Verif Require Import Lib.Base Lib.GoInt Gen.Pure_Extracted Model.C08_Submitter Proofs.GenTie.
+From Verif Require Import Lib.Base Lib.GoInt Gen.Pure_C08 Model.C08_Submitter Proofs.TieLib Proofs.Tie_C08.
 Local Open Scope Z_scope.
 
 (* items is a slice length, the concurrency any int, GOMAXPROCS positive *)
